@@ -677,3 +677,11 @@ func replayConfigOrder(n *Native, job *Job, v *Violation) (ReplayResult, bool) {
 	return ReplayResult{Cmd: "ti ./a.rb under two layouts of the same declarations", Reproduced: outRef != outOth,
 		Observed: fmt.Sprintf("reference layout: %q; other layout: %q", outRef, outOth)}, true
 }
+
+// replayNotationSites re-judges C21-sites natively (kernel jobs are left to ReplayKernel).
+func replayNotationSites(n *Native, job *Job, v *Violation) (ReplayResult, bool) {
+	if job.Replay == "kernel" {
+		return ReplayResult{}, false
+	}
+	return replayRename(n, job, v)
+}
